@@ -1,8 +1,13 @@
-(* C14 -- expected log-factor and expected log-conditional integrals are exact (linear classes).
+(* C14 -- expected log-factor and expected log-conditional integrals are exact.
+   Linear classes: full statements.  Feature models (RBF / squared-exponential features, model/FeatLog.v): given the kernel
+   moments E[k_j], E[k_j x] = E[k_j] * mean(p k_j), E[k_i k_j] (Gaussian integrals of products: C01 + C02 + C03), the values
+   computed are the expectation of the residual quadratic form for ANY feature vector with those first and second moments
+   (EquadPhi, justified as linearity of expectation by C14_EquadPhi_is_an_expectation), they reduce to the linear conditional
+   without kernels and with constant kernels.
    Equad = Gaussian second moments E[(Az+a)' L (Az+a)] = tr(A'LAS) + (Am+a)' L (Am+a) (specification GI);
    every value is per unit of total mass, in the log domain. *)
 From mathcomp Require Import all_ssreflect all_algebra.
-From GT Require Import Tensor DetExec LogDom Obj Factor Measure Pdf Cond Moments ExpLog EvalLemmas Spec C01_proofs PdfLemmas C04_proofs C12_proofs C14_proofs.
+From GT Require Import Tensor DetExec LogDom Obj Factor Measure Pdf Cond Moments ExpLog Approx FeatLog EvalLemmas Spec C01_proofs PdfLemmas C04_proofs C12_proofs C14_proofs C14_feat.
 Import GRing.Theory Num.Theory.
 Local Open Scope ring_scope.
 
@@ -49,7 +54,63 @@ Theorem C14_quadratic_inner_matrix_form D K (mu : vec F) (S A : mat F) (a : vec 
   = \tr ((mxf K D A)^T *m mxf K D B *m mxf D D S)
     + sc ((mxf K D A *m cvf D mu + cvf K a)^T *m (mxf K D B *m cvf D mu + cvf K b)).
 Proof. exact: E_quadratic_inner_mx. Qed.
+
+(* ---- feature models ---- *)
+(* EquadPhi y M b L Ef Eff = y'Ly - 2 y'L(M Ef + b) + tr(M'LM Eff) + 2 (M Ef)'Lb + b'Lb is E[(y - M phi - b)' L (y - M phi - b)] for every
+   random vector phi with E[phi] = Ef, E[phi phi'] = Eff: shown here for every finitely supported distribution *)
+Theorem C14_EquadPhi_is_an_expectation (dy dp : nat) (I : finType) (w : I -> F) (phi : I -> 'cV[F]_dp)
+    (y : 'cV[F]_dy) (M : 'M[F]_(dy, dp)) (b : 'cV[F]_dy) (L : 'M[F]_dy) :
+  L^T = L -> \sum_s w s = 1 ->
+  EquadPhi y M b L (\sum_s w s *: phi s) (\sum_s w s *: (phi s *m (phi s)^T))
+  = \sum_s w s * sc ((y - M *m phi s - b)^T *m L *m (y - M *m phi s - b)).
+Proof. exact: EquadPhi_finite_support. Qed.
+(* integrate_log_conditional_y(p_x, y) of a feature model, one component of p(x) = N(mx, Sx) *)
+Theorem C14_feature_log_conditional_y Dx Dk Dy (M : mat F) (b : vec F) (Lam : mat F) (hS : LS)
+    (mx : vec F) (Sx : mat F) (Ek : vec F) (mk : nat -> vec F) (Ekk : mat F) (y : vec F) :
+  (forall i j, (i < Dy)%N -> (j < Dy)%N -> Lam i j = Lam j i) ->
+  let m := cvf Dx mx in
+  let Ekx : 'M[F]_(Dk, Dx) := \matrix_(j, i) (Ek j * mk j i) in
+  let EfV : 'cV[F]_(Dx + Dk) := col_mx m (cvf Dk Ek) in
+  let EffM : 'M[F]_(Dx + Dk) := block_mx (mxf Dx Dx Sx + m *m m^T) Ekx^T Ekx (mxf Dk Dk Ekk) in
+  feat_log_cond_y Dx Dk Dy M b Lam hS mx Sx Ek mk Ekk y
+  = emb LS (- half F * EquadPhi (cvf Dy y) (mxf Dy (Dx + Dk) M) (cvf Dy b) (mxf Dy Dy Lam) EfV EffM)
+    - hS - hl2p LS *+ Dy.
+Proof. exact: feat_log_cond_y_spec. Qed.
+(* integrate_log_conditional(q), q over z = (y, x): residual A z - Mk k(x) - b with A = [I, -Mlin] *)
+Theorem C14_feature_log_conditional Dx Dk Dy (M : mat F) (b : vec F) (Lam : mat F) (hS : LS)
+    (mq : vec F) (Sq : mat F) (Ek : vec F) (mk : nat -> vec F) (Ekk : mat F) :
+  (forall i j, (i < Dy)%N -> (j < Dy)%N -> Lam i j = Lam j i) ->
+  let Dz := (Dy + Dx)%N in
+  let A : 'M[F]_(Dy, Dy + Dx) := row_mx 1%:M (- mxf Dy Dx (Mlin M)) in
+  let m := cvf Dz mq in
+  let Ekz : 'M[F]_(Dk, Dz) := \matrix_(j, i) (Ek j * mk j i) in
+  feat_log_cond Dx Dk Dy M b Lam hS mq Sq Ek mk Ekk
+  = emb LS (- half F * EquadPhi 0 (row_mx (- A) (mxf Dy Dk (Mk Dx M))) (cvf Dy b) (mxf Dy Dy Lam)
+                                (col_mx m (cvf Dk Ek)) (block_mx (mxf Dz Dz Sq + m *m m^T) Ekz^T Ekz (mxf Dk Dk Ekk)))
+    - hS - hl2p LS *+ Dy.
+Proof. exact: feat_log_cond_spec_phi. Qed.
+(* without kernels the feature model IS the linear conditional (model level), and constant kernels only shift the offset *)
+Theorem C14_feature_no_kernels (c : cond LS) (p : measure LS) (ys : seq (vec F)) k (Ek : vec F) (mk : nat -> vec F) (Ekk : mat F) :
+  let p1 := prepare p in let rp := bidx (uR p) k in
+  feat_log_cond_y (cDx c) 0 (cDy c) (effM c 0%N) (effb c 0%N) (cLam c 0%N) (chS c 0%N)
+                  (getmu p1 rp) (getS p1 rp) Ek mk Ekk (nth vzero ys (bidx (size ys) k))
+  = int_log_cond_y c p ys k.
+Proof. exact: feat_no_kernels_model. Qed.
+Theorem C14_feature_constant_kernels Dx Dk Dy (M : mat F) (b : vec F) (Lam : mat F) (hS : LS)
+    (mx : vec F) (Sx : mat F) (Ek : vec F) (mk : nat -> vec F) (Ekk : mat F) (y : vec F) (Ek0 : vec F) (mk0 : nat -> vec F) (Ekk0 : mat F) :
+  (forall i j, (i < Dy)%N -> (j < Dy)%N -> Lam i j = Lam j i) ->
+  (forall j, (j < Dk)%N -> Ek j = 1) ->
+  (forall j i, (j < Dk)%N -> (i < Dx)%N -> mk j i = mx i) ->
+  (forall i j, (i < Dk)%N -> (j < Dk)%N -> Ekk i j = 1) ->
+  feat_log_cond_y Dx Dk Dy M b Lam hS mx Sx Ek mk Ekk y
+  = feat_log_cond_y Dx 0 Dy M (vadd b (mvec Dk (Mk Dx M) (fun _ => 1))) Lam hS mx Sx Ek0 mk0 Ekk0 y.
+Proof. exact: feat_constant_kernels_model. Qed.
 End C14.
+Print Assumptions C14_EquadPhi_is_an_expectation.
+Print Assumptions C14_feature_log_conditional_y.
+Print Assumptions C14_feature_log_conditional.
+Print Assumptions C14_feature_no_kernels.
+Print Assumptions C14_feature_constant_kernels.
 Print Assumptions C14_expected_log_factor.
 Print Assumptions C14_expected_log_conditional.
 Print Assumptions C14_expected_log_conditional_y.
